@@ -75,3 +75,71 @@ async fn f_c14_b_a_silent_peer_is_still_given_up_within_timeout_plus_one_interva
         assert!(took <= deadline, "a silent peer was given up only after {took:?} (interval {i} ms, timeout {t} ms: bound {deadline:?})");
     }
 }
+
+/// a scripted peer on a raw pipe: answers the n-th keep-alive request after `delays_ms[n]` (no answer once the list is exhausted)
+async fn scripted_peer(interval_ms: u64, timeout_ms: u64, delays_ms: Vec<u64>) -> (Arc<Session>, std::time::Instant) {
+    use anytls_rs::protocol::{Command, Frame, FrameCodec};
+    use anytls_rs::session::SessionHeartbeatConfig;
+    use tokio::io::{AsyncReadExt, AsyncWriteExt};
+    use tokio_util::codec::{Decoder, Encoder};
+    let (a, b) = tokio::io::duplex(1 << 20);
+    let (ar, aw) = tokio::io::split(a);
+    let (mut br, bw) = tokio::io::split(b);
+    let bw = Arc::new(tokio::sync::Mutex::new(bw));
+    tokio::spawn(async move {
+        let mut codec = FrameCodec; let mut buf = bytes::BytesMut::new(); let mut tmp = vec![0u8; 4096]; let mut n_req = 0usize;
+        loop {
+            match br.read(&mut tmp).await { Ok(0) | Err(_) => break, Ok(n) => buf.extend_from_slice(&tmp[..n]) }
+            while let Ok(Some(f)) = codec.decode(&mut buf) {
+                if f.cmd == Command::HeartRequest {
+                    if let Some(d) = delays_ms.get(n_req).copied() {
+                        let bw = bw.clone();
+                        tokio::spawn(async move {
+                            tokio::time::sleep(Duration::from_millis(d)).await;
+                            let mut out = bytes::BytesMut::new();
+                            FrameCodec.encode(Frame::control(Command::HeartResponse, 0), &mut out).unwrap();
+                            let _ = bw.lock().await.write_all(&out).await;
+                        });
+                    }
+                    n_req += 1;
+                }
+            }
+        }
+    });
+    let t0 = std::time::Instant::now();
+    let client = Arc::new(Session::new_client(ar, aw, pf(), Some(SessionHeartbeatConfig { interval: Duration::from_millis(interval_ms), timeout: Duration::from_millis(timeout_ms) })));
+    let c2 = client.clone();
+    tokio::spawn(async move { let _ = c2.recv_loop().await; });
+    client.clone().start_client().await.unwrap();
+    client.disable_buffering();
+    (client, t0)
+}
+
+/// F-C14-c (repaired): every reply arrives within the timeout, but the reply times vary and some exceed the interval. The
+/// monitor that measured from the LAST ANSWER closed such a session (an unanswered request and an old last answer coincide
+/// although no request has waited a whole timeout); measuring from the oldest request since which nothing was heard does not.
+#[tokio::test]
+async fn f_c14_c_replies_within_the_timeout_keep_the_session_however_they_vary() {
+    // interval 200 ms, timeout 300 ms; replies after 10, 280, 10, 280, ... ms (all < 300)
+    let delays: Vec<u64> = (0..12).map(|k| if k % 2 == 0 { 10 } else { 280 }).collect();
+    let (c, _t0) = scripted_peer(200, 300, delays).await;
+    tokio::time::sleep(Duration::from_millis(1900)).await;   // 9-10 requests, all answered in time
+    assert!(!c.is_closed(), "a session whose peer answered every keep-alive request within the timeout was closed by the liveness monitor");
+}
+
+/// ... and the detection bound on the same monitor: the peer answers three requests and falls silent; the session is given up
+/// within timeout + one interval of the last answer, for pairs with timeout >, = and < interval (library configuration)
+#[tokio::test]
+async fn f_c14_c_a_peer_that_falls_silent_after_k_answers_is_given_up_within_the_bound() {
+    for (i, t) in [(200u64, 300u64), (200, 200), (300, 150)] {
+        let (c, t0) = scripted_peer(i, t, vec![5, 5, 5]).await;
+        // requests go out at 0, i, 2i: the last answer arrives at about 2i + 5 ms
+        let last_answer = Duration::from_millis(2 * i + 5);
+        let bound = last_answer + Duration::from_millis(t + i + 120);
+        while !c.is_closed() && t0.elapsed() < bound + Duration::from_millis(600) { tokio::time::sleep(Duration::from_millis(5)).await; }
+        let took = t0.elapsed();
+        assert!(c.is_closed(), "a peer that fell silent was never given up (interval {i} ms, timeout {t} ms)");
+        assert!(took >= last_answer + Duration::from_millis(t), "given up {took:?} after start: less than a timeout ({t} ms) after the last answer");
+        assert!(took <= bound, "given up only {took:?} after start (interval {i} ms, timeout {t} ms): later than last answer + timeout + interval");
+    }
+}
